@@ -10,7 +10,7 @@ D=/verif/build/cover; rm -rf $D; mkdir -p $D/raw $D/out
 go build -tags verif -cover -coverpkg=github.com/flosch/pongo2/v6,verifharness -o $D/harness_cover . || exit 2
 PROPS=${@:-C01 C02 C03 C04 C05 C06 C07 C08 C09 C10 C11 C12 C13 C14 C15 C16 C17 C18 C19 C20}
 for p in $PROPS; do
-  GOCOVERDIR=$D/raw $D/harness_cover -prop $p -tier quick -seed 1 -out $D/out/$p >/dev/null 2>&1
+  VERIF_SKIP_CRASHING=1 GOCOVERDIR=$D/raw $D/harness_cover -prop $p -tier quick -seed 1 -out $D/out/$p >/dev/null 2>&1
   echo "$p done"
 done
 go tool covdata textfmt -i=$D/raw -o $D/profile.txt
